@@ -58,6 +58,14 @@ BNToBytes(a, n) ==
      LET bit == 8 * (i - 1)  j == (bit \div 13) + 1  o == bit % 13
          v == Limb(a, j) + (B * Limb(a, j + 1))
      IN (v \div Pow2(o)) % 256]
+\* a mod n (n # 0) by shift-and-subtract over the bits of a, most significant first
+BNMod(a, n) ==
+  LET nb == 13 * Len(a)
+  IN FoldLeft(LAMBDA rem, k :
+                LET bit == (a[((nb - k) \div 13) + 1] \div Pow2((nb - k) % 13)) % 2
+                    r2 == BNAdd(BNAdd(rem, rem), IF bit = 1 THEN <<1>> ELSE <<>>)
+                IN IF BNCmp(r2, n) >= 0 THEN BNSub(r2, n) ELSE r2,
+              <<>>, [k \in 1..nb |-> k])
 \* 2^n as a BigNat
 BNPow2(n) == [i \in 1..(n \div 13) |-> 0] \o <<Pow2(n % 13)>>
 \* number of significant bits
